@@ -83,6 +83,14 @@ CMDS = {
     "lib_call": "total([1, 2, 3])",
     "lib_shadow": "def sum(l) -1; 1",
     "lib_shadow_fail": "def sum(l) -2; error 'late'",
+    # a loop that fails midway: its variable keeps the element it failed on
+    # (a binding made before the point of failure), whatever it iterates
+    "loop_in_err": "require IO; for item in IO->str_input('a\\nb\\nc') do "
+                   "if item == 'b' then error 'bad' end",
+    "loop_ls_err": "for item2 in ['a', 'b', 'c'] do "
+                   "if item2 == 'b' then error 'bad2' end",
+    "read_items": "[do item catch all 'no1' end, "
+                  "do item2 catch all 'no2' end]",
     "env2_read": ("E2", "[do limit catch all 'nol' end, "
                         "do a catch all 'noa' end, do w catch all 'now' end]"),
     "env2_fail": ("E2", "def w = 3; error 'boom'"),
@@ -296,6 +304,15 @@ class Sessions(e4.Explorer):
             exp = ERR
         elif name == "loop_err":
             exp = ["rt", "'x'"]
+        elif name == "loop_in_err":
+            s["item"] = True
+            exp = ["rt", "'bad'"]
+        elif name == "loop_ls_err":
+            s["item2"] = True
+            exp = ["rt", "'bad2'"]
+        elif name == "read_items":
+            exp = ["value", "[" + ("'b'" if s.get("item") else "'no1'") +
+                   ", " + ("'b'" if s.get("item2") else "'no2'") + "]"]
         elif name == "lib_def":
             s["total"] = True
             exp = ["value", "1"]
@@ -576,7 +593,7 @@ def main(tier, seed):
              "class_fail", "read_pv", "str_edit", "def_out", "say2",
              "syn_sys", "syn_after", "read_sx", "loop_def", "loop_def_fail",
              "read_seen", "lib_def", "lib_call", "lib_shadow",
-             "lib_shadow_fail")
+             "lib_shadow_fail", "loop_in_err", "loop_ls_err", "read_items")
     # small closed groups of commands that only interact with each other
     groups = [(["seed", "rnd", "rnd_fail", "div0"], 4),
               (["def_out", "say", "say2", "partial", "div0"], 3),
@@ -584,7 +601,8 @@ def main(tier, seed):
               (["loop_def", "loop_def_fail", "read_seen", "div0"], 3),
               (["class_fail", "def_fail", "read_pv", "def_a", "str_edit",
                 "str_def"], 3),
-              (["lib_def", "lib_call", "lib_shadow", "lib_shadow_fail"], 4)]
+              (["lib_def", "lib_call", "lib_shadow", "lib_shadow_fail"], 4),
+              (["loop_in_err", "loop_ls_err", "read_items", "div0"], 3)]
     if tier == "quick":
         plan1 = [(ORDER, 2), ([c for c in ORDER if c not in light], 3),
                  (["def_a", "read_a", "partial", "call_g",
